@@ -4,7 +4,7 @@ Programs are the behaviours of Grammar.tla restricted to the F77/F90 subset of t
 (configs Grammar_one_*); free and fixed form; analyze in {False, True}.  The Fixpoint and
 TokensPreserved laws of Session.tla are evaluated by TLC on sessions of fparser.api.parse."""
 import json, re
-from .. import common, tlc, programs, session, render, lexer
+from .. import common, tlc, programs, session, render, lexer, catalogue
 from ..framework import Check, pmap, MachineryError
 
 
@@ -22,6 +22,30 @@ def body(text):
     return "\n".join(out) + "\n"
 
 
+def dedup(text):
+    """Regenerated text without a labelled line that repeats the line before it (the shape of known finding KF-C19-1)."""
+    out = []
+    for ln in text.split("\n"):
+        if out and ln == out[-1] and re.match(r"\d+ ", ln):
+            continue
+        out.append(ln)
+    return "\n".join(out)
+
+
+def joined_text(stmts, per):
+    """Free-form text with up to `per` statements on a line, joined by ';' (indentation of the first one)."""
+    lines = []
+    cur = []
+    for st in stmts:
+        cur.append(render.stmt_line(st, indent=not cur).rstrip() if not cur else render.stmt_line(st, indent=False).strip())
+        if len(cur) == per:
+            lines.append("; ".join(cur))
+            cur = []
+    if cur:
+        lines.append("; ".join(cur))
+    return "\n".join(lines) + "\n"
+
+
 def nest(tree, api):
     return [(d, type(st).__name__) for st, d in api.walk(tree)]
 
@@ -34,10 +58,27 @@ def observe(case):
     res = []
     for job in case["jobs"]:
         r = {"name": job["name"]}
+        if job.get("need2"):
+            # a stressed variant belongs to the class only if it is still Fortran: fparser2 serves as the judge of that
+            o2, _t2 = fp.parse(fp.create("f2003"), job["src"])
+            if o2["res"] != "ok":
+                r.update(ok=False, err="not accepted by fparser2 (outside the class)")
+                res.append(r)
+                continue
         try:
             t1 = api.parse(job["src"], isfree=job["free"], isstrict=False, analyze=job["analyze"], ignore_comments=True)
             s1 = body(str(t1))
             r.update(ok=True, text=s1, nest=nest(t1, api))
+            d1 = dedup(s1)
+            if d1 != s1:
+                # do the laws hold once the repeated terminator lines are taken out?  (decides whether a violation is the known finding)
+                try:
+                    td = api.parse(d1, isfree=True, isstrict=False, analyze=job["analyze"], ignore_comments=True)
+                    r["modulo_dup"] = dedup(body(str(td))) == d1 and norm_tokens(d1) == norm_tokens(job["src_free"] if "src_free" in job else job["src"])
+                except BaseException as e:  # noqa: BLE001
+                    if isinstance(e, KeyboardInterrupt):
+                        raise
+                    r["modulo_dup"] = False
             try:
                 t2 = api.parse(s1, isfree=True, isstrict=False, analyze=job["analyze"], ignore_comments=True)
                 s2 = body(str(t2))
@@ -128,16 +169,33 @@ def run(prop, tier=None, replay=None):
                 beh = beh[chk.seed % 8::8]
             for b in beh:
                 progs.append({"out": b["out"], "fam": cfg.split("_")[2].split(".")[0]})
+    # metamorphic placeholder stress (as in C02): one operand of the statement carrying the non-default variant is replaced by a
+    # bracketed / quoted / exponent expression; claimed only if fparser1 accepts the result
+    if not replay:
+        from . import roundtrip
+        extra = []
+        for p in progs:
+            if p["fam"] == "sweep" and not any(r_["k"] == "s" and catalogue.SIMPLE[r_["v"] - 1]["solo"] for r_ in p["out"]):
+                p["stmts"] = render.stmts_of(p["out"])
+                for t in roundtrip.stressed_variants(p, 2 if tier == "quick" else 6):
+                    extra.append({"out": p["out"], "fam": "stress", "text": t})
+                del p["stmts"]
+        progs.extend(extra)
     chk.phase("generate")
     from .sourceform import fixed_render
     cases = []
     for i, p in enumerate(progs):
         stmts = render.stmts_of(p["out"])
-        free = render.free_text(stmts)
+        free = p.get("text") or render.free_text(stmts)
         p["src"] = free
-        jobs = [dict(name="free", src=free, free=True, analyze=bool(i % 2))]
-        if tier != "quick" or i % 3 == 0:
-            jobs.append(dict(name="fixed", src=fixed_render(stmts, 72, "&" if i % 2 else "1", "C", i), free=False, analyze=bool((i // 2) % 2)))
+        jobs = [dict(name="free", src=free, free=True, analyze=bool(i % 2), need2=(p["fam"] == "stress"))]
+        if p["fam"] != "stress" and (tier != "quick" or i % 4 == 1):
+            # the same statements two or three to a line, separated by ';'
+            jobs.append(dict(src_free=free, name="joined", src=joined_text(stmts, 2 + i % 2), free=True, analyze=bool((i // 2) % 2)))
+        if p["fam"] == "stress":
+            pass
+        elif tier != "quick" or i % 3 == 0:
+            jobs.append(dict(src_free=free, name="fixed", src=fixed_render(stmts, 72, "&" if i % 2 else "1", "C", i), free=False, analyze=bool((i // 2) % 2)))
         if tier != "quick":
             jobs.append(dict(name="free2", src=free, free=True, analyze=not bool(i % 2)))
         cases.append({"id": i, "jobs": jobs, "prog": p})
@@ -194,13 +252,16 @@ def run(prop, tier=None, replay=None):
             k = next((i for i, (u, v) in enumerate(zip(a, b)) if u != v), min(len(a), len(b)))
             extra = "first difference at token %d: source %s / output %s" % (k, a[max(0, k - 3):k + 4], b[max(0, k - 3):k + 4])
             sig = {"clause": clause, "src_tok": a[k] if k < len(a) else None, "out_tok": b[k] if k < len(b) else None}
+            if re.search(r"^\s*(\d+\s+)?allocate\s*\([^)]*\)\s*=", c["prog"]["src"], re.M | re.I):
+                sig["assignment_to_an_array_named_allocate"] = True
             if a == b and x.get("dropped"):
                 extra = "keywords of the source missing in the output: %s" % x["dropped"]
                 sig = {"clause": "keyword-dropped", "kw": ",".join(x["dropped"])}
         else:
             sig = {"clause": clause, "err": (x.get("err2") or "")[:40]}
         if shared:
-            sig = {"clause": clause, "program_has_do_loops_sharing_a_label": True}
+            sig = {"clause": clause, "program_has_do_loops_sharing_a_label": True,
+                   "laws_hold_once_the_repeated_terminator_is_removed": bool(x.get("modulo_dup"))}
         chk.violation(sig, "C19: %s (%s, analyze=%s) %s %s\n--- source\n%s--- output\n%s" % (clause, job["name"], job["analyze"], extra, x.get("err2", ""), job["src"][:500], x["text"][:500]),
                       {"prog": c["prog"], "clause": clause})
     chk.cov["skipped_not_accepted_by_fparser1"] = skipped
